@@ -38,6 +38,7 @@ func extractionSchema(client bool) *Schema {
 		withOpt(field("page", "int32"), "sebuf.http.query", M{"name": "page"}),
 		queryTags(client),
 		withOpt(field("verbose", "bool"), "sebuf.http.query", M{"name": "verbose", "required": true}),
+		withOpt(field("big", "uint64"), "sebuf.http.query", M{"name": "big"}),
 	))
 	addMessage(f, message("UpdateNoteRequest", field("id", "string"), field("title", "string"), field("version", "int64")))
 	addMessage(f, message("ListNotesRequest", field("filter", "string")))
